@@ -68,6 +68,8 @@ type Interp struct {
 	clockSeq int
 	timers   []*vtimer
 	stubsHit map[string]bool
+	allocTerms []*Term
+	prof       map[string]int
 	locks       map[*Value]*lockState
 	condWaiters map[*Value][]*bool
 }
@@ -124,6 +126,7 @@ func (it *Interp) resetPath(prefix []decision, model Model) {
 	it.clock = nil
 	it.clockSeq = 0
 	it.timers = nil
+	it.allocTerms = nil
 	it.locks = nil
 	it.condWaiters = nil
 	it.ctx.NewEpoch()
